@@ -4,6 +4,7 @@ import os
 import re
 import common as C
 import flow
+import tmpl
 import tables as T
 
 
@@ -430,6 +431,25 @@ def run(ck, facts):
     ops = re.findall(r"operator(==|!=|<=|>=|<|>)\(const [^)]*\) const", C.read_repo("tool/templates/cpp/method_impl.h.jinja"))
     ck.expect(len(ops) >= 6, "R7", "cpp/method_impl.h/const-comparison-operators", "%d const operators" % len(ops), "the comparison operators are no longer the 6 hard-coded const members this rule pairs the qualifier with (%d found)" % len(ops), "tool/templates/cpp/method_impl.h.jinja")
     cpp_struct_field_window(ck, "R7", facts)
+    # the C names the C++ headers mention (the embedded capi declarations are printed by the C backend) are produced by the C formatter itself: every `fmt_c_*` function of the
+    # C++ formatter delegates to CFormatter and builds nothing of its own
+    nfc = 0
+    for f in tool.fn_list:
+        if "hir" not in f or not re.search(r"^diplomat_tool::cpp::formatter::.*::fmt_c_\w+$", C.norm_path(f["path"])):
+            continue
+        nfc += 1
+        calls_ = [C.callee(x) or "" for x in C.calls_in(C.fn_body(f))]
+        own = [m_.get("name") for m_ in C.walk(C.fn_body(f)) if m_.get("k") == "macro" and m_.get("name") in ("format", "write", "concat")]
+        ck.expect(any("::c::formatter::CFormatter" in c_ for c_ in calls_) and not own, "R7", "cpp::formatter::%s/delegates-to-c-formatter" % f["name"], "",
+                  "%s builds the C name itself (%s) instead of asking the C formatter that printed the declaration: with a C++-only rename the header refers to a C enumerator / type that the embedded "
+                  "capi block does not declare" % (f["name"], own or "no CFormatter call"), C.loc(f))
+    if nfc < 3:
+        ck.bad("R7", "cpp::formatter/fmt_c-floor", "only %d fmt_c_* functions found in the C++ formatter (3 counted)" % nfc)
+    # a C++ impl header pulls in its own declaration header before the headers of the types it uses (with mutually referring types the other order finds the type incomplete)
+    bh = tmpl.flat_file("cpp/base.h.jinja", resolve_includes=False)
+    i_own, i_dep = bh.find("decl_include"), bh.find("for include in includes")
+    ck.expect(0 <= i_own < i_dep, "R7", "cpp/base.h.jinja/own-declaration-first", "decl_include before the includes loop",
+              "the C++ header template includes the types it uses before its own `.d.hpp` (positions %d / %d): for cyclic references the other header is entered while this type is still undeclared" % (i_own, i_dep), "tool/templates/cpp/base.h.jinja")
     # the extern "C" fn the macro emits takes its lifetime generics (and their bounds) from the method's LifetimeEnv: bounds written in a `where` clause
     # must be in it, or the expansion fails borrow checking (shares C05.R4)
     import c05
